@@ -4,6 +4,11 @@ Requests:
   `c17 <topic hex> <op>:<ver>:<off>:<hwm> <body hex> <k> <next body hex> => <res> <next> <deliver>`
       model: the operation of Model/ConnOps.lean on the stream `(frame 1 body).take k` (then EOF); for k = frame length the
       stream continues with the follow-up list-offsets frame.  `next` = outcome of a list-offsets operation afterwards.
+  `c2 <topic hex> <A>:<ver>:<off>:<hwm> <bodyA hex> <B>:… <bodyB hex> <k> => <resA> <resB>`   two callers with both requests
+      in flight on ONE Conn, the response stream lost after k bytes: nobody may hang (read lock released on every exit).
+  `lo <cut timestamp|none> <true first> <true last> <frame len> <k> => <call> <first> <last> <error code>`   one
+      Client.ListOffsets call split into three sub-requests, one sub-response cut: expected value from C19's
+      Split/Merge/Client model; monitor: error, or true values.
   `rr <api key> <ver> <frame len> <k> <reader> => <ok <consumed>|err|panic>`
       model: protocol.ReadResponse under its contract (Props/C17 `Decoder`): error on every strict prefix, on the full
       frame ok having consumed exactly the frame.
@@ -18,6 +23,7 @@ of the records sent.
 -/
 import Oracle.ConnCommon
 import KafkaVerif.Model.TransportConnC17
+import KafkaVerif.Model.ListOffsets
 
 namespace KV.OracleC17
 open KV KV.Reader KV.ConnOps KV.OracleConn
@@ -33,12 +39,35 @@ def monitorConn (a : OpInst) (cut : Bool) (impl : String) : Option Bool :=
 def modelConn (topic : Bytes) (a : OpInst) (k : Nat) (nextBody : Bytes) : Option String :=
   let fa := frame 1 a.body
   let stream := if k ≥ fa.length then fa ++ frame 2 nextBody else fa.take k
-  match runInst topic a ⟨stream, 1, false⟩ with
+  match runInstL false topic a (⟨stream, 1, false⟩, false) with
   | none => none
   | some (ra, c1) =>
-    match runInst topic ⟨"listOffsets", 1, 0, 0, nextBody⟩ c1 with
+    match runInstL false topic ⟨"listOffsets", 1, 0, 0, nextBody⟩ c1 with
     | some (rn, _) => some s!"{showOutcome ra} {showOutcome rn} {if a.name == "fetch" then "prefix" else "-"}"
     | none => none
+
+/-- two callers on one Conn, both requests written before any response: responses arrive in request order, the stream
+is lost after k bytes (k ≥ both frames: not at all) -/
+def modelTwo (topic : Bytes) (a b : OpInst) (k : Nat) : Option String :=
+  let stream := (frame 1 a.body ++ frame 2 b.body).take k
+  match runInstL true topic a (⟨stream, 1, false⟩, false) with
+  | none => none
+  | some (ra, c1) =>
+    match runInstL true topic b c1 with
+    | some (rb, _) => some s!"{showOutcome ra} {showOutcome rb}"
+    | none => none
+
+/-- monitor for two callers (implementation's output only): nobody hangs or panics; a caller whose response was not
+fully delivered gets an error; a caller whose response was fully delivered before the loss gets a result. -/
+def monitorTwo (a b : OpInst) (k : Nat) (impl : String) : Bool :=
+  match words impl with
+  | [ra, rb] =>
+    let la := a.body.length + 8
+    let lb := b.body.length + 8
+    isDone ra && isDone rb &&
+    (if k < la then isFailStr ra || ra.startsWith "kafka:" else !isFailStr ra || (specJudge a ra).isNone) &&
+    (if k < la + lb then isFailStr rb || rb.startsWith "kafka:" else true)
+  | _ => false
 
 /-! Transport path -/
 
@@ -73,6 +102,23 @@ def firstExpected (scenario : String) : String :=
   else if scenario.startsWith "writer.WriteMessages" then "ok"     -- the Writer retries on a new connection
   else "err"
 
+/-! split ListOffsets with one sub-response lost: expected result from the C19 builder's model of
+(*Request).Split / (*Response).Merge / Client.ListOffsets (Model/ListOffsets.lean; Props/C19 `entries_exact`,
+`failure_isolated`): the lost part contributes the UNKNOWN placeholder (error −1), the others their values. -/
+def modelSplitListOffsets (cutTs : Option Int) (first last : Int) : String :=
+  let req : List (String × List (Int × Int)) := [("t", [(0, -2), (0, -1), (0, 1234)])]
+  let answer (ts off : Int) : ListOffsets.Result :=
+    if cutTs == some ts then .err "unexpected EOF" else .ok ⟨0, [("t", [⟨0, 0, -1, off, 0⟩])]⟩
+  let r := ListOffsets.clientRequest 0 req
+  match ListOffsets.merge (ListOffsets.split r) [answer (-2) first, answer (-1) last, answer 1234 3] with
+  | .error _ => "err - - -"
+  | .ok resp =>
+    match ListOffsets.clientApply (ListOffsets.clientInit req) resp with
+    | some m => match m.lookup ("t", 0) with
+      | some p => s!"ok {p.first} {p.last} {p.error}"
+      | none => "ok - - missing"
+    | none => "panic"
+
 def step (line : String) : String :=
   match line.splitOn " => " with
   | [req, impl] =>
@@ -85,6 +131,24 @@ def step (line : String) : String :=
         | none, _ => "bad-op"
         | _, none => "bad-frame: body is not an encoding of the Spec layout"
       | _, _, _, _ => "bad-args"
+    | ["c2", t, sa, ha, sb, hb, ks] =>
+      match ofHex t, parseInst sa ha, parseInst sb hb, ks.toNat? with
+      | some topic, some a, some b, some k =>
+        match modelTwo topic a b k with
+        | some m => s!"model={m} holds={if monitorTwo a b k impl then 1 else 0}"
+        | none => "bad-op"
+      | _, _, _, _ => "bad-args"
+    | ["lo", cts, fs, ls, _, _] =>
+      match fs.toInt?, ls.toInt? with
+      | some first, some last =>
+        let m := modelSplitListOffsets cts.toInt? first last
+        -- monitor: the call failed, or the partition carries an error, or both values are the true ones
+        let h := match words impl with
+          | ["err", _, _, _] => true
+          | ["ok", f, l, e] => e != "0" && e != "missing" || (f.toInt? == some first && l.toInt? == some last && e == "0")
+          | _ => false
+        s!"model={m} holds={if h then 1 else 0}"
+      | _, _ => "bad-args"
     | ["tp", sc, ls, ks] =>
       match ls.toNat?, ks.toNat? with
       | some len, some k =>
